@@ -508,6 +508,7 @@ func genC05Matrix(r *rand.Rand, n int, tier string) []string {
 	add(c05EvalRows())
 	add(c05BoundRows(tier))
 	add(c05EdgeRows(r, tier))
+	add(c05CodeRows())
 	if tier == "thorough" || n <= 0 || n >= len(big) {
 		add(big)
 		return out
